@@ -7,14 +7,26 @@ CHECK = {'level': 'exploration',
          'or Remove of the same sender landing while the pass is verifying, verifier answer changes (ok/pending/invalid/error); 30 actions per '
          'history (80 in part of the thorough tier); invariants I1-I5 after every single pool call, every call under a watchdog. Plus concurrent '
          'workloads (1 promotion goroutine + 3-7 goroutines of Add/Remove/block/getter calls, yields and 100 us pauses at the verifier) checked at '
-         'quiescence, under -race in the thorough tier. Non-trivial = history that reached the pool or a per-sender limit, or performed a '
-         'replacement, or a promotion followed by a demotion (concurrent case: limit reached or processables at the end). Distinct by digest of the '
-         'full operation history',
+         'quiescence, under -race in the thorough tier. Plus large-scale histories (TestPoolScale): 10-150 senders (exactly 32/33/64/65 drawn '
+         'often), MaxTransactions 1-400 and the engine default 4096 (classes: 2-4x senders, senders+-1, senders/2, 31-33/63-65/128, per-account '
+         'limit+-1), per-account limit 1-80 (63/64/65 often), per-sender base nonces 0-300, runs with gaps and runs up to / one beyond the '
+         'per-account limit; 60-440 pool calls per history (60-900 thorough) in bulk phases: fill (runs for many senders), burst of first-nonce '
+         'transactions from fresh accounts (also into a full pool; equal / distinct / higher fee priorities), promotion pass with answers '
+         'scripted for many senders at once (all ok / pending / invalid / error, mixed, exactly k invalid with k around 32 and 64; non-ok answer '
+         'at the first / middle / last promotable nonce, at a processable nonce, on the whole run), block applied (lowest nonces / processables '
+         'of many senders, random subset, whole pool) and reverted, replacement attempts for many slots, lower / gap / higher nonces into full '
+         'sender lists, removals, known transactions again; every history has at least one pass. Same invariants; promotion passes and phase '
+         'boundaries evaluated in full, single Add/Remove calls inside a bulk phase on a pool of >= 24 (or 64) transactions as light steps '
+         '(watchdog + Get before/after) with a full evaluation at least every 8 or 48 calls. Fixed regression scenarios (TestRegress...) incl. 48 '
+         'senders whose pooled transactions all turn invalid before one pass. Non-trivial = history that reached the pool or a per-sender '
+         'limit, or performed a replacement, or a promotion followed by a demotion (concurrent case: limit reached or processables at the end). '
+         'Distinct by digest of the full operation history',
  'level_text': 'Invariant oracle evaluated on an internal snapshot (three indexes + per-sender lists) and on the public getters after every pool call '
                'of generated histories: index agreement (I1), size bounds (I2), one transaction per sender/nonce and the replacement fee rule (I3), '
                'processable set ascending, gap-free, member of the list and answered ok by the verifier when it became processable (I4), Add/Remove '
                'results agree with membership (I5); liveness by watchdog with goroutine-dump evidence (every goroutine inside the pool parked on its '
-               'locks). Sampled, not exhaustive.',
+               'locks, a WaitGroup or a channel send executed by a pool function). Small histories (3-4 senders, limits 1-6) and large-scale '
+               'histories (up to 150 senders, 400 pooled, 65 per sender). Sampled, not exhaustive.',
  'level_note': 'Which transaction is evicted / rejected at a full pool is not asserted (any choice that keeps the invariants passes). Concurrent '
                'phase fixes the workload, not the Go schedule. On a tree where the listed known findings are present their triggers are avoided '
                'by construction (pool never filled, no successful replacement / per-sender eviction, no promotion pass while a pending answer is '
@@ -25,7 +37,9 @@ CHECK = {'level': 'exploration',
                  'an empty per-sender list left in perAccount counts as index disagreement',
                  '"passed verification" = the scripted ABI answered Ok (not Pending) for that transaction in the call that made it processable'],
  'quick': [{'pkg': 'c14', 'run': 'TestRegress|TestPoolStateMachine', 'checks': 12000, 'timeout': 600},
-           {'pkg': 'c14', 'run': 'TestPoolConcurrent', 'checks': 1200, 'timeout': 600}],
+           {'pkg': 'c14', 'run': 'TestPoolConcurrent', 'checks': 1200, 'timeout': 600},
+           {'pkg': 'c14', 'run': 'TestPoolScale', 'checks': 200, 'timeout': 600}],
  'thorough': [{'pkg': 'c14', 'run': 'TestRegress|TestPoolStateMachine', 'checks': 100000, 'shards': 8, 'timeout': 2400},
               {'pkg': 'c14', 'run': 'TestPoolStateMachine', 'checks': 40000, 'steps': 80, 'shards': 4, 'timeout': 2400},
-              {'pkg': 'c14', 'run': 'TestPoolConcurrent', 'race': True, 'checks': 12000, 'shards': 4, 'timeout': 2400}]}
+              {'pkg': 'c14', 'run': 'TestPoolConcurrent', 'race': True, 'checks': 12000, 'shards': 4, 'timeout': 2400},
+              {'pkg': 'c14', 'run': 'TestPoolScale', 'checks': 1500, 'shards': 4, 'timeout': 2400}]}
